@@ -356,7 +356,7 @@ def op_getitem_mask(rng, inp):
                     {"mask": m}, py_agree=agree, sources=[arr], trivial=all(m) or not any(m))
 
 
-def op_getitem_idx(rng, inp):
+def op_getitem_idx(rng, inp, force=None):
     arr, n = inp["arr"], len(inp["rows"])
     k = rng.randint(0, 6)
     oob = rng.random() < 0.1
@@ -365,9 +365,11 @@ def op_getitem_idx(rng, inp):
         ix[rng.randrange(len(ix))] = rng.choice([n, -n - 1, n + 3])
     if n == 0 and not oob:
         ix = []
-    if n and not oob and rng.random() < 0.15:
+    if n and not oob and rng.random() < 0.3:
         # constant keys: every position the same one (all zero, all the last, all -1)
-        ix = [rng.choice([0, 0, n - 1, -1])] * rng.randint(1, 3)
+        ix = [rng.choice([0, 0, 0, n - 1, -1])] * rng.randint(1, 3)
+    if force == "zeros" and n:
+        ix = [0] * rng.randint(1, 3)           # an integer key holding only zeros selects row 0 that many times (it is not a mask)
     res = attempt(lambda: arr[np.array(ix, dtype=np.int64)])
     rows = plain_rows(inp)
     try:
